@@ -19,6 +19,24 @@ def _names(e):
     return {n.id for n in ast.walk(e) if isinstance(n, ast.Name)}
 
 
+def _expr_tainted(e, t, fields):
+    """does the expression read a tainted value?  An attribute read `rec.field` of a tainted local is tainted only when the field is known
+    to carry the taint (the record was built here with that keyword) or is itself named after the shift: `axis.samples_in` of a record
+    that has a `shift` field is a sample count, not a shift.  (A record whose shift-carrying field has another name is not followed: the
+    rule then under-reports, it does not report what is not there.)"""
+    skip = set()
+    hit = False
+    for n in ast.walk(e):
+        if isinstance(n, ast.Attribute) and isinstance(n.value, ast.Name) and n.value.id in t:
+            skip.add(id(n.value))
+            if 'shift' in n.attr.lower() or n.attr in fields.get(n.value.id, ()) or '*' in fields.get(n.value.id, ()):
+                hit = True
+    for n in ast.walk(e):
+        if isinstance(n, ast.Name) and n.id in t and id(n) not in skip:
+            hit = True
+    return hit
+
+
 def _stored(tg):
     """the names a target writes: the base of a subscript / attribute (not the names in its index), every element of a tuple"""
     if isinstance(tg, (ast.Tuple, ast.List)):
@@ -46,11 +64,13 @@ def shiftgrid_rules(run, db):
         byname.setdefault(fi.name, []).append((q, fi))
     changed = True
     rounds = 0
+    rec_fields = {}          # function -> {record local: tainted field names}
     while changed and rounds < 20:
         changed = False
         rounds += 1
         for q, fi in funcs.items():
             t = tainted[q]
+            fields = rec_fields.setdefault(q, {})
             # assignments (in source order, to a local fixpoint)
             for _ in range(4):
                 before = len(t)
@@ -67,7 +87,15 @@ def shiftgrid_rules(run, db):
                     if val is None:
                         continue
                     # a tuple key unpacked component-wise keeps the taint of the components that carry a shift by name
-                    if _names(val) & t:
+                    # a record built with keyword arguments: remember which fields carry the taint
+                    if isinstance(val, ast.Call) and val.keywords and not val.args and len(targets) == 1 and isinstance(targets[0], ast.Name) \
+                            and isinstance(val.func, ast.Name) and val.func.id[:1].isupper() or (isinstance(val, ast.Call) and isinstance(val.func, ast.Name) and val.func.id.startswith('_') and val.func.id[1:2].isupper() and val.keywords and not val.args and len(targets) == 1 and isinstance(targets[0], ast.Name)):
+                        fs_ = {k.arg for k in val.keywords if k.arg and _expr_tainted(k.value, t, fields)}
+                        if fs_:
+                            fields[targets[0].id] = fs_
+                            t.add(targets[0].id)
+                        continue
+                    if _expr_tainted(val, t, fields):
                         for tg in targets:
                             for n in _stored(tg):
                                 if isinstance(n, ast.Name):
@@ -86,11 +114,19 @@ def shiftgrid_rules(run, db):
                 for q2, f2 in byname.get(callee, []):
                     params = [p for p in f2.params if p not in ('self', 'cls')]
                     for i, a in enumerate(c.args):
-                        if i < len(params) and _names(a) & t and params[i] not in tainted[q2]:
+                        if i < len(params) and isinstance(a, ast.Name) and a.id in fields:
+                            # a record handed on: its tainted fields stay what they are
+                            cur = rec_fields.setdefault(q2, {}).setdefault(params[i], set())
+                            if not fields[a.id] <= cur or params[i] not in tainted[q2]:
+                                cur |= fields[a.id]
+                                tainted[q2].add(params[i])
+                                changed = True
+                            continue
+                        if i < len(params) and _expr_tainted(a, t, fields) and params[i] not in tainted[q2]:
                             tainted[q2].add(params[i])
                             changed = True
                     for kw in c.keywords:
-                        if kw.arg in f2.params and _names(kw.value) & t and kw.arg not in tainted[q2]:
+                        if kw.arg in f2.params and _expr_tainted(kw.value, t, fields) and kw.arg not in tainted[q2]:
                             tainted[q2].add(kw.arg)
                             changed = True
     n_sites = 0
@@ -101,7 +137,7 @@ def shiftgrid_rules(run, db):
                 continue
             n_sites += 1
             ends = c.args[:2]
-            bad = len(c.args) >= 2 and any(_names(a) & tainted[q] for a in ends)
+            bad = len(c.args) >= 2 and any(_expr_tainted(a, tainted[q], rec_fields.get(q, {})) for a in ends)
             run.check(not bad, 'C01.shiftgrid', fi.qual, ast.unparse(c)[:80],
                       '%s: the index vector `%s` has integer end points (its length does not depend on the shift)' % (fi.name, ast.unparse(c)[:60]),
                       '%s builds an index vector with `%s`, whose end points depend on the real-valued shift (%s): for a fractional shift the floating-point difference of the end points '
